@@ -39,15 +39,37 @@ def ceil_r(x):
     """mathematical ceiling of a Real term, as Real.  Encoded as an uninterpreted function whose defining facts
     (integrality, x <= CEIL(x) < x+1) are added for every application at solve time (engine.define_rounding): the
     solvers then use congruence instead of to_int reasoning, which they handle badly together with UF."""
-    return CEIL(x)
+    c = _concrete_round(x, "ceil")
+    return c if c is not None else CEIL(x)
+
+
+def _concrete_round(x, how):
+    """numerals are rounded concretely (run-time twin of the contracts)"""
+    import math
+    from fractions import Fraction
+    try:
+        xs = z3.simplify(x)
+    except Exception:
+        return None
+    if z3.is_rational_value(xs):
+        f = Fraction(xs.numerator_as_long(), xs.denominator_as_long())
+        return z3.RealVal(math.ceil(f) if how == "ceil" else math.floor(f))
+    return None
 
 
 def floor_r(x):
-    return FLOOR(x)
+    c = _concrete_round(x, "floor")
+    return c if c is not None else FLOOR(x)
 
 
-def floor_i(x): return FLOORI(x)
-def ceil_i(x): return CEILI(x)
+def floor_i(x):
+    c = _concrete_round(x, "floor")
+    return z3.ToInt(c) if c is not None else FLOORI(x)
+
+
+def ceil_i(x):
+    c = _concrete_round(x, "ceil")
+    return z3.ToInt(c) if c is not None else CEILI(x)
 
 
 def rounding_facts(formulas):
